@@ -311,4 +311,24 @@ def run(ctx: Ctx, tier: str) -> Result:
         res.ok("C02.CHILD", {"private names": "class prefix removed when present"})
     else:
         res.fail(Finding("C02.CHILD", cn.qname, "<val[len('_' + cls):]>", cn.loc(), "private attribute names are not shown without their `_Class` prefix"))
+    # what is recorded for a value is decided by its type, never by its truth value / length: an object that
+    # is falsy (empty cart, Money(0), failed Result) still has the attributes the program gave it
+    from ..taint import Taint
+    from .c06 import Pins, collector_scope
+    from .common import settrace_entries
+    tn = Taint(p, t, [(f, f.params[3]) for f, _, _ in settrace_entries(ctx) if len(f.params) > 3])
+    pins = Pins(ctx, tn)
+    scope = collector_scope(ctx)
+    for k in sorted(scope):
+        fi = scope[k]
+        for op in tn.ops(fi):
+            if op.kind not in ("truth", "builtin:bool", "builtin:len"):
+                continue
+            if "len" in pins.caps(op.subject, op.node, fi):
+                res.ok("C02.CHILD", {"op": op.kind, "on": norm(op.subject)[:50], "at": fi.loc(op.node), "why": "builtin container: emptiness is its content"})
+            else:
+                res.fail(Finding("C02.CHILD", fi.qname, op.node, fi.loc(op.node),
+                                 "%s of `%s`, a value of the traced program of any type: what is collected then depends on the "
+                                 "object's __bool__/__len__ instead of its type (a falsy object with attributes is recorded differently)" % (
+                                     op.kind, norm(op.subject)[:60])))
     return res
